@@ -198,7 +198,7 @@ def shard(shard, nshards, tier, seed, scratch):
     total = 20000 if tier == 'quick' else 200000
     stats = Stats()
     failures = run_hypothesis(st_case(), lambda c: check_case(c, stats), max(1, total // nshards), seed, shrink_budget=300 if tier == 'quick' else 2000)
-    for which in ('agg', 'aggenum', 'aggenum-int', 'aggenum-float'):
+    for which in ('agg', 'aggenum', 'aggenum-int', 'aggenum-float', 'agg-builtins'):
         failures += _large(shard, stats, which)
     return {'stats': stats.export(), 'failures': failures}
 
